@@ -51,6 +51,7 @@ type c05Req struct {
 	condKind string // "" | eq | notexists | exists
 	condVal  []byte // eq: dynamodb expected attribute value / s3 expected ETag
 	strong   bool   // get: ConsistentRead=true / x-tigris-cas: true
+	retOld   bool   // dynamodb put: ReturnValuesOnConditionCheckFailure=ALL_OLD
 	dec      chan c05Decision
 	attempt  string
 }
@@ -265,6 +266,8 @@ func (f *c05Fake) parseDynamo(client int, r *http.Request, body []byte) (*c05Req
 			Item                      map[string]c05AV
 			ConditionExpression       *string
 			ExpressionAttributeValues map[string]c05AV
+			// ALL_OLD: a failed condition check returns the stored item in the exception
+			ReturnValuesOnConditionCheckFailure *string
 		}
 		if err := json.Unmarshal(body, &in); err != nil {
 			return nil, err.Error()
@@ -278,6 +281,15 @@ func (f *c05Fake) parseDynamo(client int, r *http.Request, body []byte) (*c05Req
 			return nil, "PutItem without checkpoint attribute"
 		}
 		q.api, q.key = "put", string(*k.B)
+		if rv := in.ReturnValuesOnConditionCheckFailure; rv != nil {
+			switch *rv {
+			case "ALL_OLD":
+				q.retOld = true
+			case "NONE":
+			default:
+				return nil, "ReturnValuesOnConditionCheckFailure must be ALL_OLD or NONE"
+			}
+		}
 		if cp.B != nil {
 			q.body = *cp.B
 		}
@@ -436,7 +448,16 @@ func (f *c05Fake) handler(client int) http.HandlerFunc {
 		case q.api == "put" && !ok:
 			f.last[client] = "condfail"
 			if f.kind == "dynamodb" {
-				f.writeError(w, 400, "ConditionalCheckFailedException", "", "The conditional request failed")
+				if q.retOld && item.present {
+					k := []byte(q.key)
+					b, _ := json.Marshal(map[string]any{
+						"__type":  "com.amazonaws.dynamodb.v20120810#ConditionalCheckFailedException",
+						"message": "The conditional request failed",
+						"Item":    map[string]c05AV{"logID": {B: &k}, "checkpoint": {B: &item.val}}})
+					c05WriteDynamo(w, 400, b)
+				} else {
+					f.writeError(w, 400, "ConditionalCheckFailedException", "", "The conditional request failed")
+				}
 			} else {
 				f.writeError(w, 412, "", "PreconditionFailed", "At least one of the pre-conditions you specified did not hold")
 			}
@@ -615,6 +636,7 @@ func c05FakeSelfTest() error {
 		{"PutItem", put("", ``), 200, "{}"},
 		{"GetItem", `{"TableName":"t","Key":` + key + `}`, 200, `"checkpoint":{"B":""}`},
 		{"PutItem", put("QQ==", `,"ConditionExpression":"checkpoint <> :old"`), 400, "ValidationException"},
+		{"PutItem", put("QQ==", `,"ConditionExpression":"checkpoint = :old","ExpressionAttributeValues":{":old":{"B":"QQ=="}},"ReturnValuesOnConditionCheckFailure":"ALL_OLD"`), 400, `"Item":{"checkpoint":{"B":""}`},
 	}
 	for i, st := range dsteps {
 		code, body := dyn(st.target, st.body)
